@@ -205,4 +205,648 @@ theorem copyRange_map_line (file : List Line) (i n : Nat) :
   simp only [this]
   exact List.zipIdx_map_fst _ _
 
+/-! ### the writer's rule (D97): only the last line of the output may lack its newline
+
+  `render mode os = renderLines mode ((terminateInner os).map Out.line)`.  The lemmas below lead back from `render` to
+  `renderLines` whenever no item but the last is unterminated (`InnerTerminated` / `LinesTerminated`), give the line-level
+  specification of the rule (`terminate`, `renderText`) for outputs without `-D` items, and state the new behaviour positively
+  (`render_terminates_inner`). -/
+
+/-- no line but the last lacks its newline -/
+def LinesTerminated (ls : List Line) : Prop := ∀ l ∈ ls.dropLast, l.newline ≠ .none
+
+/-- no item but the last has an unterminated line -/
+def InnerTerminated (os : List Out) : Prop := ∀ o ∈ os.dropLast, o.line.newline ≠ .none
+
+theorem innerTerminated_iff_map (os : List Out) : InnerTerminated os ↔ LinesTerminated (os.map Out.line) := by
+  unfold InnerTerminated LinesTerminated
+  rw [← List.map_dropLast]
+  constructor
+  · intro h l hl
+    obtain ⟨o, ho, rfl⟩ := List.mem_map.1 hl
+    exact h o ho
+  · intro h o ho
+    exact h o.line (List.mem_map_of_mem ho)
+
+/-! #### LinesTerminated -/
+
+theorem linesTerminated_nil : LinesTerminated [] := by intro l h; cases h
+
+theorem linesTerminated_singleton (l : Line) : LinesTerminated [l] := by intro l h; cases h
+
+theorem linesTerminated_cons₂ (l l2 : Line) (rest : List Line) :
+    LinesTerminated (l :: l2 :: rest) ↔ l.newline ≠ .none ∧ LinesTerminated (l2 :: rest) := by
+  unfold LinesTerminated
+  rw [List.dropLast_cons_cons]
+  simp
+
+theorem linesTerminated_of_all {ls : List Line} (h : ∀ l ∈ ls, l.newline ≠ .none) : LinesTerminated ls :=
+  fun l hl => h l (List.dropLast_subset _ hl)
+
+/-- the form in which `splitLinesGo_none_last` states it: an unterminated line has nothing after it -/
+theorem linesTerminated_iff (ls : List Line) :
+    LinesTerminated ls ↔ ∀ pre l post, ls = pre ++ l :: post → l.newline = .none → post = [] := by
+  constructor
+  · intro h pre l post he hn
+    by_cases hp : post = []
+    · exact hp
+    · exfalso
+      have hd : ls.dropLast = pre ++ l :: post.dropLast := by
+        rw [he, List.dropLast_append_of_ne_nil (by simp), List.dropLast_cons_of_ne_nil hp]
+      exact h l (by rw [hd]; simp) hn
+  · intro h l hl hn
+    have hne : ls ≠ [] := by
+      intro h0; rw [h0] at hl; cases hl
+    obtain ⟨pre, post, hd⟩ := List.append_of_mem hl
+    have he : ls = pre ++ l :: (post ++ [ls.getLast hne]) := by
+      have := List.dropLast_concat_getLast hne
+      rw [hd] at this
+      exact this.symm.trans (by simp)
+    have := h pre l _ he hn
+    simp at this
+
+theorem LinesTerminated.left {as bs : List Line} (h : LinesTerminated (as ++ bs)) : LinesTerminated as := by
+  rw [linesTerminated_iff] at h ⊢
+  intro pre l post he hn
+  have := h pre l (post ++ bs) (by rw [he]; simp) hn
+  simp at this; exact this.1
+
+theorem LinesTerminated.right {as bs : List Line} (h : LinesTerminated (as ++ bs)) : LinesTerminated bs := by
+  rw [linesTerminated_iff] at h ⊢
+  intro pre l post he hn
+  exact h (as ++ pre) l post (by rw [he]; simp) hn
+
+/-- what stands in front of something is terminated throughout -/
+theorem LinesTerminated.all_left {as bs : List Line} (h : LinesTerminated (as ++ bs)) (hb : bs ≠ []) :
+    ∀ l ∈ as, l.newline ≠ .none := by
+  rw [linesTerminated_iff] at h
+  intro l hl hn
+  obtain ⟨pre, post, rfl⟩ := List.append_of_mem hl
+  have := h pre l (post ++ bs) (by simp) hn
+  simp at this; exact hb this.2
+
+theorem linesTerminated_append {as bs : List Line} (ha : ∀ l ∈ as, l.newline ≠ .none) (hb : LinesTerminated bs) :
+    LinesTerminated (as ++ bs) := by
+  by_cases hne : bs = []
+  · subst hne; rw [List.append_nil]; exact linesTerminated_of_all ha
+  · intro l hl
+    rw [List.dropLast_append_of_ne_nil hne] at hl
+    rcases List.mem_append.1 hl with h | h
+    · exact ha l h
+    · exact hb l h
+
+theorem linesTerminated_append_iff (as bs : List Line) (hb : bs ≠ []) :
+    LinesTerminated (as ++ bs) ↔ (∀ l ∈ as, l.newline ≠ .none) ∧ LinesTerminated bs :=
+  ⟨fun h => ⟨h.all_left hb, h.right⟩, fun h => linesTerminated_append h.1 h.2⟩
+
+theorem LinesTerminated.take {ls : List Line} (h : LinesTerminated ls) (n : Nat) : LinesTerminated (ls.take n) := by
+  rw [← List.take_append_drop n ls] at h; exact h.left
+
+theorem LinesTerminated.drop {ls : List Line} (h : LinesTerminated ls) (n : Nat) : LinesTerminated (ls.drop n) := by
+  rw [← List.take_append_drop n ls] at h; exact h.right
+
+/-- a stretch of the file that stops before its end is terminated throughout -/
+theorem LinesTerminated.all_take {ls : List Line} (h : LinesTerminated ls) {n : Nat} (hn : n < ls.length) :
+    ∀ l ∈ ls.take n, l.newline ≠ .none := by
+  rw [← List.take_append_drop n ls] at h
+  exact h.all_left (by
+    intro h0
+    have := congrArg List.length h0
+    simp at this; omega)
+
+theorem LinesTerminated.all_drop_take {ls : List Line} (h : LinesTerminated ls) {i n : Nat} (hn : i + n < ls.length) :
+    ∀ l ∈ (ls.drop i).take n, l.newline ≠ .none := by
+  intro l hl
+  refine h.all_take hn l ?_
+  have : (ls.drop i).take n = (ls.take (i + n)).drop i := by
+    rw [List.drop_take]; simp
+  rw [this] at hl
+  exact List.drop_subset _ _ hl
+
+/-- **the lines of a file as read**: only the last can lack its newline -/
+theorem linesTerminated_splitLinesGo (cur bs : Bytes) : LinesTerminated (splitLinesGo cur bs) := by
+  rw [linesTerminated_iff]
+  intro pre l post he hn
+  exact splitLinesGo_none_last cur bs pre post l he hn
+
+theorem linesTerminated_splitLines (bs : Bytes) : LinesTerminated (splitLines bs) :=
+  linesTerminated_splitLinesGo [] bs
+
+/-- the intended result of a script all of whose lines (the file's and the added ones) are terminated -/
+theorem splice_all_terminated (file : List Line) (hf : ∀ l ∈ file, l.newline ≠ .none) :
+    ∀ (hs : List Hunk) (c : Nat), (∀ h ∈ hs, ∀ l ∈ newOf h.lines, l.newline ≠ .none) →
+      ∀ l ∈ splice file c hs, l.newline ≠ .none := by
+  intro hs
+  induction hs with
+  | nil =>
+    intro c _ l hl
+    exact hf l (List.drop_subset _ _ hl)
+  | cons h rest ih =>
+    intro c hn l hl
+    simp only [splice, List.mem_append] at hl
+    rcases hl with (hl | hl) | hl
+    · exact hf l (List.drop_subset _ _ (List.take_subset _ _ hl))
+    · exact hn h (by simp) l hl
+    · exact ih _ (fun h' hh' => hn h' (by simp [hh'])) l hl
+
+theorem linesTerminated_splice_of_all (file : List Line) (hs : List Hunk) (c : Nat) (hf : ∀ l ∈ file, l.newline ≠ .none)
+    (hn : ∀ h ∈ hs, ∀ l ∈ newOf h.lines, l.newline ≠ .none) : LinesTerminated (splice file c hs) :=
+  linesTerminated_of_all (splice_all_terminated file hf hs c hn)
+
+/-! #### InnerTerminated -/
+
+theorem innerTerminated_nil : InnerTerminated [] := by intro l h; cases h
+
+theorem innerTerminated_singleton (o : Out) : InnerTerminated [o] := by intro l h; cases h
+
+theorem innerTerminated_cons₂ (o o2 : Out) (rest : List Out) :
+    InnerTerminated (o :: o2 :: rest) ↔ o.line.newline ≠ .none ∧ InnerTerminated (o2 :: rest) := by
+  unfold InnerTerminated
+  rw [List.dropLast_cons_cons]
+  simp
+
+theorem innerTerminated_of_all {os : List Out} (h : ∀ o ∈ os, o.line.newline ≠ .none) : InnerTerminated os :=
+  fun o ho => h o (List.dropLast_subset _ ho)
+
+theorem innerTerminated_of_lines {os : List Out} {ls : List Line} (h : os.map Out.line = ls) (ht : LinesTerminated ls) :
+    InnerTerminated os := by
+  rw [innerTerminated_iff_map, h]; exact ht
+
+theorem InnerTerminated.left {as bs : List Out} (h : InnerTerminated (as ++ bs)) : InnerTerminated as := by
+  rw [innerTerminated_iff_map, List.map_append] at h
+  rw [innerTerminated_iff_map]; exact h.left
+
+theorem InnerTerminated.right {as bs : List Out} (h : InnerTerminated (as ++ bs)) : InnerTerminated bs := by
+  rw [innerTerminated_iff_map, List.map_append] at h
+  rw [innerTerminated_iff_map]; exact h.right
+
+theorem InnerTerminated.all_left {as bs : List Out} (h : InnerTerminated (as ++ bs)) (hb : bs ≠ []) :
+    ∀ o ∈ as, o.line.newline ≠ .none := by
+  rw [innerTerminated_iff_map, List.map_append] at h
+  intro o ho
+  exact h.all_left (by simpa using hb) o.line (List.mem_map_of_mem ho)
+
+theorem innerTerminated_append {as bs : List Out} (ha : ∀ o ∈ as, o.line.newline ≠ .none) (hb : InnerTerminated bs) :
+    InnerTerminated (as ++ bs) := by
+  rw [innerTerminated_iff_map] at hb ⊢
+  rw [List.map_append]
+  refine linesTerminated_append ?_ hb
+  intro l hl
+  obtain ⟨o, ho, rfl⟩ := List.mem_map.1 hl
+  exact ha o ho
+
+theorem innerTerminated_append_iff (as bs : List Out) (hb : bs ≠ []) :
+    InnerTerminated (as ++ bs) ↔ (∀ o ∈ as, o.line.newline ≠ .none) ∧ InnerTerminated bs :=
+  ⟨fun h => ⟨h.all_left hb, h.right⟩, fun h => innerTerminated_append h.1 h.2⟩
+
+/-- a copied stretch of a file as read -/
+theorem innerTerminated_copyRange {file : List Line} (hf : LinesTerminated file) (i n : Nat) :
+    InnerTerminated (copyRange file i n) := by
+  rw [innerTerminated_iff_map, copyRange_map_line]
+  exact (hf.drop i).take n
+
+/-- a copied stretch that stops before the end of the file is terminated throughout -/
+theorem copyRange_all_terminated {file : List Line} (hf : LinesTerminated file) {i n : Nat} (h : i + n < file.length) :
+    ∀ o ∈ copyRange file i n, o.line.newline ≠ .none := by
+  intro o ho
+  have : o.line ∈ (copyRange file i n).map Out.line := List.mem_map_of_mem ho
+  rw [copyRange_map_line] at this
+  exact hf.all_drop_take h _ this
+
+theorem copyRange_all_terminated_of_all {file : List Line} (hf : ∀ l ∈ file, l.newline ≠ .none) (i n : Nat) :
+    ∀ o ∈ copyRange file i n, o.line.newline ≠ .none := by
+  intro o ho
+  have : o.line ∈ (copyRange file i n).map Out.line := List.mem_map_of_mem ho
+  rw [copyRange_map_line] at this
+  exact hf _ (List.drop_subset _ _ (List.take_subset _ _ this))
+
+/-- where the items of `write_hunk` come from: a line of the file, or an added line of the hunk -/
+theorem mem_writeHunk (file : List Line) : ∀ (ls : List PatchLine) (cur : Nat) (out : List Out) (c : Nat),
+    writeHunk file ls cur = some (out, c) →
+    ∀ o ∈ out, (∃ k l, o = Out.fromFile k l ∧ file[k]? = some l) ∨
+      (∃ pl ∈ ls, pl.op = PLUS ∧ o = Out.fromPatch pl.line) := by
+  intro ls
+  induction ls with
+  | nil => intro cur out c h o ho; simp [writeHunk] at h; rw [h.1] at ho; cases ho
+  | cons pl rest ih =>
+    intro cur out c h o ho
+    have lift : ((∃ k l, o = Out.fromFile k l ∧ file[k]? = some l) ∨
+          (∃ pl' ∈ rest, pl'.op = PLUS ∧ o = Out.fromPatch pl'.line)) →
+        ((∃ k l, o = Out.fromFile k l ∧ file[k]? = some l) ∨
+          (∃ pl' ∈ pl :: rest, pl'.op = PLUS ∧ o = Out.fromPatch pl'.line)) := by
+      rintro (h | ⟨pl', h1, h2⟩)
+      · exact Or.inl h
+      · exact Or.inr ⟨pl', List.mem_cons_of_mem _ h1, h2⟩
+    rw [writeHunk] at h
+    split at h
+    · split at h
+      · cases h
+      · next l hl =>
+        rw [Option.map_eq_some_iff] at h
+        obtain ⟨⟨o', c'⟩, h', he⟩ := h
+        cases he
+        rcases List.mem_cons.1 ho with rfl | ho
+        · exact Or.inl ⟨cur, l, rfl, hl⟩
+        · exact lift (ih _ _ _ h' o ho)
+    · split at h
+      · next hplus =>
+        rw [Option.map_eq_some_iff] at h
+        obtain ⟨⟨o', c'⟩, h', he⟩ := h
+        cases he
+        rcases List.mem_cons.1 ho with rfl | ho
+        · exact Or.inr ⟨pl, by simp, by simpa using hplus, rfl⟩
+        · exact lift (ih _ _ _ h' o ho)
+      · split at h
+        · exact lift (ih _ _ _ h o ho)
+        · exact lift (ih _ _ _ h o ho)
+
+/-! #### terminateInner, render -/
+
+@[simp] theorem terminateInner_nil : terminateInner [] = [] := rfl
+@[simp] theorem terminateInner_singleton (o : Out) : terminateInner [o] = [o] := rfl
+
+theorem terminateInner_cons₂ (o o2 : Out) (rest : List Out) :
+    terminateInner (o :: o2 :: rest) =
+      o :: ((if o.line.newline = .none ∧ o2.isBare = false then [Out.directive ⟨[], .lf⟩] else []) ++
+        terminateInner (o2 :: rest)) := by
+  rw [terminateInner]
+  by_cases h1 : o.line.newline = .none <;> cases h2 : o2.isBare <;> simp [h1]
+
+/-- **(b)** nothing is added when no item but the last is unterminated -/
+theorem terminateInner_eq_self : ∀ (os : List Out), InnerTerminated os → terminateInner os = os
+  | [], _ => rfl
+  | [_], _ => rfl
+  | o :: o2 :: rest, h => by
+    have h' := (innerTerminated_cons₂ o o2 rest).1 h
+    rw [terminateInner_cons₂, terminateInner_eq_self (o2 :: rest) h'.2]
+    simp [h'.1]
+
+/-- **(c)** back from `render` to `renderLines` -/
+theorem render_eq_renderLines (mode : NewlineOutput) (os : List Out) (h : InnerTerminated os) :
+    render mode os = renderLines mode (os.map Out.line) := by
+  rw [render, terminateInner_eq_self os h]
+
+/-- the form in which the users have it: the lines of the output are known (`hrout : r.out.map Out.line = ls`) -/
+theorem render_of_map_line (mode : NewlineOutput) {os : List Out} {ls : List Line} (h : os.map Out.line = ls)
+    (ht : LinesTerminated ls) : render mode os = renderLines mode ls := by
+  rw [render_eq_renderLines mode os (innerTerminated_of_lines h ht), h]
+
+theorem render_of_all_terminated (mode : NewlineOutput) {os : List Out} (h : ∀ o ∈ os, o.line.newline ≠ .none) :
+    render mode os = renderLines mode (os.map Out.line) :=
+  render_eq_renderLines mode os (innerTerminated_of_all h)
+
+@[simp] theorem render_nil (mode : NewlineOutput) : render mode [] = [] := rfl
+
+@[simp] theorem render_singleton (mode : NewlineOutput) (o : Out) : render mode [o] = renderLine mode o.line := by
+  simp [render]
+
+/-- what the writer puts between two consecutive items -/
+def glue (o o2 : Out) : List Out :=
+  if o.line.newline = .none ∧ o2.isBare = false then [Out.directive ⟨[], .lf⟩] else []
+
+/-- what the writer puts between two stretches of items -/
+def glueL (as bs : List Out) : List Out :=
+  match as.getLast?, bs.head? with
+  | some o, some o2 => glue o o2
+  | _, _ => []
+
+theorem terminateInner_cons_cons (o o2 : Out) (rest : List Out) :
+    terminateInner (o :: o2 :: rest) = o :: (glue o o2 ++ terminateInner (o2 :: rest)) :=
+  terminateInner_cons₂ o o2 rest
+
+theorem terminateInner_append : ∀ (as bs : List Out),
+    terminateInner (as ++ bs) = terminateInner as ++ glueL as bs ++ terminateInner bs
+  | [], bs => by simp [glueL]
+  | [a], [] => by simp [glueL]
+  | [a], b :: bs => by
+    simp only [List.cons_append, List.nil_append, terminateInner_cons_cons, terminateInner_singleton, glueL,
+      List.getLast?_singleton, List.head?_cons]
+  | a :: a2 :: as, bs => by
+    have ih := terminateInner_append (a2 :: as) bs
+    have hg : glueL (a :: a2 :: as) bs = glueL (a2 :: as) bs := by
+      simp [glueL, List.getLast?_cons_cons]
+    have ih' : terminateInner (a2 :: (as ++ bs)) = terminateInner (a2 :: as) ++ glueL (a2 :: as) bs ++ terminateInner bs := ih
+    show terminateInner (a :: a2 :: (as ++ bs)) = _
+    rw [terminateInner_cons_cons, ih', terminateInner_cons_cons, hg]
+    simp
+
+theorem render_append (mode : NewlineOutput) (as bs : List Out) :
+    render mode (as ++ bs) = render mode as ++ renderLines mode ((glueL as bs).map Out.line) ++ render mode bs := by
+  simp only [render, terminateInner_append, List.map_append, renderLines_append]
+
+/-- nothing comes between two stretches when the first ends terminated -/
+theorem glueL_of_terminated {as bs : List Out} (h : ∀ o, as.getLast? = some o → o.line.newline ≠ .none) :
+    glueL as bs = [] := by
+  unfold glueL
+  split
+  · next o o2 ho _ => simp [glue, h o ho]
+  · rfl
+
+/-- nothing comes between two stretches when the second starts with a bare terminator of `write_define_hunk` -/
+theorem glueL_of_bare {as bs : List Out} (h : ∀ o, bs.head? = some o → o.isBare = true) : glueL as bs = [] := by
+  unfold glueL
+  split
+  · next o o2 _ ho => simp [glue, h o2 ho]
+  · rfl
+
+theorem render_append_of_terminated (mode : NewlineOutput) {as bs : List Out}
+    (h : ∀ o, as.getLast? = some o → o.line.newline ≠ .none) :
+    render mode (as ++ bs) = render mode as ++ render mode bs := by
+  rw [render_append, glueL_of_terminated h]; simp
+
+theorem render_append_of_all_terminated (mode : NewlineOutput) {as bs : List Out}
+    (h : ∀ o ∈ as, o.line.newline ≠ .none) :
+    render mode (as ++ bs) = renderLines mode (as.map Out.line) ++ render mode bs := by
+  rw [render_append_of_terminated mode (fun o ho => h o (List.mem_of_getLast? ho)), render_of_all_terminated mode h]
+
+/-- the bytes of a bare newline in each mode -/
+theorem renderLine_bare_lf (mode : NewlineOutput) : renderLine mode ⟨[], .lf⟩ = renderNewline mode .lf := by
+  simp [renderLine]
+
+/-- **(e)** the new behaviour, positively: an unterminated line which is followed by anything but a bare terminator gets the
+    newline of the mode (`[NL]`, with `--newline-output crlf` `[CR, NL]`) before what follows is written -/
+theorem render_terminates_inner (mode : NewlineOutput) (pre : List Out) (o o2 : Out) (rest : List Out)
+    (hn : o.line.newline = .none) (hb : o2.isBare = false) :
+    render mode (pre ++ [o] ++ o2 :: rest) =
+      render mode (pre ++ [o]) ++ renderNewline mode .lf ++ render mode (o2 :: rest) ∧
+    ∃ a, render mode (pre ++ [o]) = a ++ o.line.content := by
+  constructor
+  · rw [render_append]
+    have : glueL (pre ++ [o]) (o2 :: rest) = [Out.directive ⟨[], .lf⟩] := by
+      simp [glueL, glue, hn, hb]
+    rw [this]
+    simp [Out.line, renderLine_bare_lf]
+  · refine ⟨render mode pre ++ renderLines mode ((glueL pre [o]).map Out.line), ?_⟩
+    rw [render_append, render_singleton, renderLine_of_none mode o.line hn]
+
+theorem renderNewline_lf (mode : NewlineOutput) :
+    renderNewline mode .lf = (if mode = .crlf then [CR, NL] else [NL]) := by
+  cases mode <;> simp [renderNewline]
+
+/-- the reported case (D97): "a\nb\nc" without a final newline and a hunk which adds "d" after it -/
+theorem render_example :
+    render .lf [.fromFile 2 ⟨[99], .none⟩, .fromPatch ⟨[100], .lf⟩] = [99, 10, 100, 10] := by decide
+
+#guard render .lf [.fromFile 2 ⟨str "c", .none⟩, .fromPatch ⟨str "d", .lf⟩] == str "c\nd\n"
+#guard render .lf [.fromFile 0 ⟨str "a", .lf⟩, .fromFile 1 ⟨str "b", .lf⟩, .fromFile 2 ⟨str "c", .none⟩,
+  .fromPatch ⟨str "d", .lf⟩] == str "a\nb\nc\nd\n"
+#guard render .crlf [.fromFile 2 ⟨str "c", .none⟩, .fromPatch ⟨str "d", .lf⟩] == str "c\r\nd\r\n"
+-- the last line may stay as it is; a bare terminator of `write_define_hunk` is not doubled
+#guard render .lf [.fromFile 1 ⟨str "b", .lf⟩, .fromFile 2 ⟨str "c", .none⟩] == str "b\nc"
+#guard render .lf [.fromFile 2 ⟨str "c", .none⟩, .directive ⟨[], .lf⟩, .directive ⟨str "#endif", .lf⟩] == str "c\n#endif\n"
+#guard render .lf [.fromFile 2 ⟨str "c", .none⟩, .directive ⟨str "#ifdef X", .lf⟩] == str "c\n#ifdef X\n"
+
+/-! #### the rule on lines: outputs without `-D` items -/
+
+/-- the writer's rule on a list of lines: a line without newline which is not the last is followed by a bare newline -/
+def terminate : List Line → List Line
+  | [] => []
+  | [l] => [l]
+  | l :: l2 :: rest =>
+    if l.newline = .none then l :: ⟨[], .lf⟩ :: terminate (l2 :: rest) else l :: terminate (l2 :: rest)
+
+/-- the intended bytes of a list of lines in a mode: every line as it is, except that a line without newline that is not the
+    last one gets the newline of the mode -/
+def renderText (mode : NewlineOutput) (ls : List Line) : Bytes := renderLines mode (terminate ls)
+
+/-- the same, stated directly: every line but the last is written as if it were terminated -/
+def forceNewline (l : Line) : Line := if l.newline = .none then { l with newline := .lf } else l
+
+def terminate' : List Line → List Line
+  | [] => []
+  | [l] => [l]
+  | l :: l2 :: rest => forceNewline l :: terminate' (l2 :: rest)
+
+theorem renderLines_terminate (mode : NewlineOutput) : ∀ ls : List Line,
+    renderLines mode (terminate ls) = renderLines mode (terminate' ls)
+  | [] => rfl
+  | [_] => rfl
+  | l :: l2 :: rest => by
+    rw [terminate, terminate']
+    have ih := renderLines_terminate mode (l2 :: rest)
+    by_cases h : l.newline = .none
+    · simp only [h, if_true, renderLines_cons, ih, forceNewline]
+      rcases l with ⟨c, nl⟩
+      simp only at h; subst h
+      simp [renderLine, renderNewline]
+    · simp only [h, if_false, renderLines_cons, ih, forceNewline]
+
+theorem renderText_eq (mode : NewlineOutput) (ls : List Line) : renderText mode ls = renderLines mode (terminate' ls) :=
+  renderLines_terminate mode ls
+
+theorem terminate_eq_self : ∀ (ls : List Line), LinesTerminated ls → terminate ls = ls
+  | [], _ => rfl
+  | [_], _ => rfl
+  | l :: l2 :: rest, h => by
+    have h' := (linesTerminated_cons₂ l l2 rest).1 h
+    rw [terminate, terminate_eq_self (l2 :: rest) h'.2]
+    simp [h'.1]
+
+theorem renderText_eq_renderLines (mode : NewlineOutput) (ls : List Line) (h : LinesTerminated ls) :
+    renderText mode ls = renderLines mode ls := by
+  rw [renderText, terminate_eq_self ls h]
+
+/-- no item is a bare terminator of `write_define_hunk` (in particular: an output made without `-D`) -/
+def NoBare (os : List Out) : Prop := ∀ o ∈ os, o.isBare = false
+
+theorem NoBare.nil : NoBare [] := by intro o h; cases h
+
+theorem NoBare.append {as bs : List Out} (ha : NoBare as) (hb : NoBare bs) : NoBare (as ++ bs) := by
+  intro o ho
+  rcases List.mem_append.1 ho with h | h
+  · exact ha o h
+  · exact hb o h
+
+theorem noBare_copyRange (file : List Line) (i n : Nat) : NoBare (copyRange file i n) := by
+  intro o ho
+  obtain ⟨k, l, rfl, _⟩ := mem_copyRange file i n o ho
+  rfl
+
+theorem noBare_writeHunk {file : List Line} {ls : List PatchLine} {cur c : Nat} {out : List Out}
+    (h : writeHunk file ls cur = some (out, c)) : NoBare out := by
+  intro o ho
+  rcases mem_writeHunk file ls cur out c h o ho with ⟨k, l, rfl, _⟩ | ⟨pl, _, _, rfl⟩ <;> rfl
+
+theorem noBare_hunkOutput (file : List Line) : ∀ (ls : List PatchLine) (cur : Nat), NoBare (hunkOutput file ls cur) := by
+  intro ls
+  induction ls with
+  | nil => intro cur; exact NoBare.nil
+  | cons pl rest ih =>
+    intro cur
+    rw [hunkOutput]
+    split
+    · intro o ho
+      rcases List.mem_cons.1 ho with rfl | ho
+      · rfl
+      · exact ih cur o ho
+    · split
+      · refine NoBare.append ?_ (ih _)
+        split
+        · intro o ho; simp at ho; subst ho; rfl
+        · exact NoBare.nil
+      · exact ih _
+
+theorem noBare_spliceAt (file : List Line) : ∀ (pls : List (Hunk × Nat)) (c : Nat), NoBare (spliceAt file c pls) := by
+  intro pls
+  induction pls with
+  | nil => intro c; exact noBare_copyRange _ _ _
+  | cons hp rest ih =>
+    intro c
+    obtain ⟨h, p⟩ := hp
+    rw [spliceAt]
+    exact ((noBare_copyRange _ _ _).append (noBare_hunkOutput _ _ _)).append (ih _)
+
+theorem terminateInner_map_line : ∀ (os : List Out), NoBare os →
+    (terminateInner os).map Out.line = terminate (os.map Out.line)
+  | [], _ => rfl
+  | [_], _ => rfl
+  | o :: o2 :: rest, h => by
+    have ih := terminateInner_map_line (o2 :: rest) (fun x hx => h x (List.mem_cons_of_mem _ hx))
+    have hb : o2.isBare = false := h o2 (by simp)
+    simp only [List.map_cons] at ih ⊢
+    rw [terminateInner_cons₂, terminate]
+    by_cases hn : o.line.newline = .none
+    · rw [if_pos ⟨hn, hb⟩, if_pos hn, List.map_cons, List.map_append, ih]; rfl
+    · rw [if_neg (fun h => hn h.1), if_neg hn, List.map_cons, List.nil_append, ih]
+
+/-- **without `-D`** the bytes of the output are the intended bytes of its lines -/
+theorem render_eq_renderText (mode : NewlineOutput) (os : List Out) (h : NoBare os) :
+    render mode os = renderText mode (os.map Out.line) := by
+  rw [render, terminateInner_map_line os h, renderText]
+
+theorem render_eq_renderText_of_map_line (mode : NewlineOutput) {os : List Out} {ls : List Line} (h : NoBare os)
+    (hl : os.map Out.line = ls) : render mode os = renderText mode ls := by
+  rw [render_eq_renderText mode os h, hl]
+
+#guard renderText .lf [⟨str "a", .lf⟩, ⟨str "c", .none⟩, ⟨str "d", .lf⟩] == str "a\nc\nd\n"
+#guard renderText .keep [⟨str "a", .crlf⟩, ⟨str "c", .none⟩, ⟨str "d", .none⟩] == str "a\r\nc\nd"
+
+/-! #### what the rule leaves as it is -/
+
+theorem forceNewline_newline (l : Line) : (forceNewline l).newline ≠ .none := by
+  unfold forceNewline; split <;> simp_all
+
+theorem forceNewline_content (l : Line) : (forceNewline l).content = l.content := by
+  unfold forceNewline; split <;> rfl
+
+theorem forceNewline_of_terminated {l : Line} (h : l.newline ≠ .none) : forceNewline l = l := by
+  unfold forceNewline; simp [h]
+
+/-- every line but the last is written as if it were terminated, the last as it is -/
+theorem terminate'_eq : ∀ ls : List Line, terminate' ls = ls.dropLast.map forceNewline ++ ls.getLast?.toList
+  | [] => rfl
+  | [_] => rfl
+  | l :: l2 :: rest => by
+    rw [terminate', terminate'_eq (l2 :: rest), List.dropLast_cons_cons, List.getLast?_cons_cons]
+    rfl
+
+theorem linesTerminated_terminate' (ls : List Line) : LinesTerminated (terminate' ls) := by
+  rw [terminate'_eq]
+  refine linesTerminated_append ?_ ?_
+  · intro l hl
+    obtain ⟨l', _, rfl⟩ := List.mem_map.1 hl
+    exact forceNewline_newline l'
+  · cases ls.getLast? with
+    | none => exact linesTerminated_nil
+    | some l => exact linesTerminated_singleton l
+
+theorem terminate'_length (ls : List Line) : (terminate' ls).length = ls.length := by
+  rw [terminate'_eq]
+  rcases List.eq_nil_or_concat ls with rfl | ⟨i, b, rfl⟩
+  · rfl
+  · simp
+
+theorem terminate'_getLast? (ls : List Line) : (terminate' ls).getLast? = ls.getLast? := by
+  rw [terminate'_eq]
+  rcases List.eq_nil_or_concat ls with rfl | ⟨i, b, rfl⟩
+  · rfl
+  · simp
+
+theorem terminate'_content (ls : List Line) : (terminate' ls).map (·.content) = ls.map (·.content) := by
+  rw [terminate'_eq]
+  rcases List.eq_nil_or_concat ls with rfl | ⟨i, b, rfl⟩
+  · rfl
+  · simp [forceNewline_content]
+
+theorem terminate'_eq_self {ls : List Line} (h : LinesTerminated ls) : terminate' ls = ls := by
+  rw [terminate'_eq]
+  have : ls.dropLast.map forceNewline = ls.dropLast := by
+    conv => rhs; rw [← List.map_id ls.dropLast]
+    exact List.map_congr_left (fun l hl => forceNewline_of_terminated (h l hl))
+  rw [this]
+  rcases List.eq_nil_or_concat ls with rfl | ⟨i, b, rfl⟩
+  · rfl
+  · simp
+
+/-- the last item is written as it is -/
+theorem terminateInner_getLast? : ∀ os : List Out, (terminateInner os).getLast? = os.getLast?
+  | [] => rfl
+  | [_] => rfl
+  | o :: o2 :: rest => by
+    have ih := terminateInner_getLast? (o2 :: rest)
+    rw [terminateInner_cons_cons, List.getLast?_cons_cons, ← ih]
+    have : o :: (glue o o2 ++ terminateInner (o2 :: rest)) = (o :: glue o o2) ++ terminateInner (o2 :: rest) := rfl
+    rw [this, List.getLast?_append]
+    cases h : (terminateInner (o2 :: rest)).getLast? with
+    | none => rw [ih] at h; simp at h
+    | some x => rfl
+
+/-- the items of the output are all still there, in order: only bare newlines are added -/
+theorem terminateInner_filter : ∀ os : List Out, NoBare os → (terminateInner os).filter (fun o => !o.isBare) = os
+  | [], _ => rfl
+  | [o], h => by simp [h o (by simp)]
+  | o :: o2 :: rest, h => by
+    have ih := terminateInner_filter (o2 :: rest) (fun x hx => h x (List.mem_cons_of_mem _ hx))
+    have ho : o.isBare = false := h o (by simp)
+    have hg : (glue o o2).filter (fun o => !o.isBare) = [] := by
+      unfold glue; split <;> simp [Out.isBare]
+    rw [terminateInner_cons_cons, List.filter_cons, List.filter_append, hg, ih]
+    simp [ho]
+
+theorem terminateInner_cons_head (o : Out) (os : List Out) : ∃ t, terminateInner (o :: os) = o :: t := by
+  cases os with
+  | nil => exact ⟨[], rfl⟩
+  | cons o2 rest => exact ⟨_, terminateInner_cons_cons o o2 rest⟩
+
+/-- in what is written, an unterminated line that is not the last is followed by a bare terminator (one of `write_define_hunk`, or
+    the one the writer adds) -/
+theorem terminateInner_inner : ∀ (os pre : List Out) (o o2 : Out) (rest : List Out),
+    terminateInner os = pre ++ o :: o2 :: rest → o.line.newline = .none → o2.isBare = true
+  | [], pre, o, o2, rest, h, _ => by simp at h
+  | [x], pre, o, o2, rest, h, _ => by
+    have := congrArg List.length h
+    simp at this; omega
+  | x :: x2 :: xs, pre, o, o2, rest, h, hn => by
+    rw [terminateInner_cons_cons] at h
+    obtain ⟨t, ht⟩ := terminateInner_cons_head x2 xs
+    cases pre with
+    | nil =>
+      simp only [List.nil_append, List.cons.injEq] at h
+      obtain ⟨rfl, h⟩ := h
+      unfold glue at h
+      split at h
+      · simp only [List.cons_append, List.nil_append, List.cons.injEq] at h
+        rw [← h.1]; rfl
+      · next hc =>
+        rw [ht] at h
+        simp only [List.nil_append, List.cons.injEq] at h
+        rw [← h.1]
+        cases hb : x2.isBare with
+        | true => rfl
+        | false => exact absurd ⟨hn, hb⟩ hc
+    | cons a pre' =>
+      simp only [List.cons_append, List.cons.injEq] at h
+      obtain ⟨_, h⟩ := h
+      unfold glue at h
+      split at h
+      · cases pre' with
+        | nil =>
+          simp only [List.cons_append, List.nil_append, List.cons.injEq] at h
+          rw [← h.1] at hn
+          simp [Out.line] at hn
+        | cons g pre'' =>
+          simp only [List.cons_append, List.nil_append, List.cons.injEq] at h
+          exact terminateInner_inner (x2 :: xs) pre'' o o2 rest h.2 hn
+      · exact terminateInner_inner (x2 :: xs) pre' o o2 rest (by simpa using h) hn
+
 end PatchModel.Render
